@@ -180,6 +180,67 @@ def check_algebra(ctx):
     return n
 
 
+def check_replace_params(ctx):
+    """M(g).replace_params(p) == M(g.replace_params(p)) for every modifier M: either the one-level recursion
+    `self.wrapped_gate.replace_params(p)` re-wrapped by this wrapper's own modifier and field, or a helper that peels the
+    whole modifier stack and re-applies it -- which must then re-apply the collected modifiers innermost first, i.e. in the
+    reverse of the order in which they were peeled off (orientation parity odd)."""
+    from ..orient import Orient
+
+    repo = ctx.repo
+    mod = repo.module(GATES)
+    want = {"ControlledGate": ("controlled", "self.num_control_qubits"), "Dagger": ("dagger", None), "Exponential": ("exp", None), "Power": ("power", "self.exponent")}
+    helpers = set()
+    inlined = []
+    for cname, (modifier, field) in want.items():
+        m = mod.classes[cname].methods.get("replace_params")
+        if m is None:
+            ctx.violation(R1, f"{GATES}:{cname}.replace_params", f"{cname} does not define replace_params", mod.classes[cname])
+            continue
+        ctx.analysed(m)
+        p = positional_params(m.node)[1]
+        rets = returned_exprs(m.node)
+        inner = f"self.wrapped_gate.replace_params({p})"
+        forms = {f"{inner}.{modifier}" if field is None else f"{inner}.{modifier}({field})"}
+        if field is None:
+            forms |= {f"{cname}({inner})", f"{cname}(wrapped_gate={inner})", f"replace(self, wrapped_gate={inner})", f"dataclasses.replace(self, wrapped_gate={inner})"}
+        else:
+            fname = field.split(".")[-1]
+            forms |= {f"{cname}({inner}, {field})", f"{cname}(wrapped_gate={inner}, {fname}={field})", f"replace(self, wrapped_gate={inner})", f"dataclasses.replace(self, wrapped_gate={inner})"}
+        if len(rets) == 1 and norm(rets[0]) in forms:
+            ctx.ok(R1, m.key, f"{cname}.replace_params re-wraps the re-parametrised wrapped gate with its own modifier", m)
+            continue
+        call = rets[0] if len(rets) == 1 else None
+        if isinstance(call, ast.Call) and isinstance(call.func, ast.Name) and call.func.id in mod.functions and [norm(a) for a in call.args] == ["self", p]:
+            helpers.add(call.func.id)
+            ctx.ok(R1, m.key, f"{cname}.replace_params delegates to {call.func.id}(self, {p}) (checked below)", m)
+            continue
+        if any(isinstance(w, ast.While) for w in body_walk(m.node)):
+            inlined.append(m)  # a peel-and-rewrap helper inlined into the method by CANON: judged like the helper itself
+            continue
+        ctx.violation(R1, m.key, f"{cname}.replace_params returns {short(rets[0]) if rets else None}: not the wrapped gate with the new parameters re-wrapped by this wrapper's own modifier" + (f" and {field}" if field else ""), m)
+    for h in [mod.functions[hn] for hn in sorted(helpers)] + inlined:
+        hn = h.qualname
+        ctx.analysed(h)
+        peeled = None
+        for w in body_walk(h.node):
+            if isinstance(w, ast.While):
+                apps = [c for c in ast.walk(w) if isinstance(c, ast.Call) and isinstance(c.func, ast.Attribute) and c.func.attr == "append" and isinstance(c.func.value, ast.Name)]
+                descends = any(isinstance(a, ast.Assign) and isinstance(a.value, ast.Attribute) and a.value.attr == "wrapped_gate" for a in ast.walk(w))
+                if apps and descends:
+                    peeled = apps[0].func.value.id
+        loops = [l for l in body_walk(h.node) if isinstance(l, ast.For) and peeled and any(isinstance(n, ast.Name) and n.id == peeled for n in ast.walk(l.iter))]
+        if peeled is None or len(loops) != 1:
+            ctx.undecided(R1, h.key, "cannot find the peel-and-rewrap structure of the replace_params helper", h)
+            continue
+        o = Orient(h.node, lambda e: isinstance(e, ast.Name) and e.id == peeled)
+        par = o.parity(loops[0].iter)
+        if par is None:
+            ctx.undecided(R1, h.key, f"cannot follow the order in which {short(loops[0].iter)} re-applies the peeled modifiers", h)
+        else:
+            ctx.check(par == 1, R1, h.key + ":rewrap-order", "modifiers are re-applied innermost first (reverse of the peeling order)", f"{hn} peels the modifiers outermost first into `{peeled}` and re-applies them in the same order ({short(loops[0].iter)}): a stack of two or more modifiers comes back in reverse nesting, e.g. RZ(a).exp.controlled(1).replace_params(p) becomes exp of the controlled gate", f"{h.module.relpath}:{loops[0].lineno}")
+
+
 def check_delegation(ctx):
     repo = ctx.repo
     mod = repo.module(GATES)
@@ -371,6 +432,7 @@ def run(ctx):
     check_dagger_semantics(ctx, "C07-D6 dagger-semantics")
     ctx.floor("C07-D6", 12)
     n = check_algebra(ctx)
+    check_replace_params(ctx)
     check_delegation(ctx)
     check_matrices(ctx)
     check_guard(ctx)
@@ -378,7 +440,7 @@ def run(ctx):
         ctx.undecided(R5, "lint-self-check", "embedded positive example not detected", "")
     funcs = list(ctx.repo.module(GATES).functions.values())
     check_hidden_state(ctx, R5, funcs, effects_for(ctx))
-    ctx.floor("C07-D1", 20)
+    ctx.floor("C07-D1", 24)
     ctx.floor("C07-D2", 9)
     ctx.floor("C07-D3", 6)
     ctx.floor("C07-D4", 3)
